@@ -221,7 +221,22 @@ fn cmd_net_trace(a: &HashMap<String, String>) -> i32 {
             let _ = writeln!(w, "{}", e);
         }
     }
-    println!("{}", json!({"events": total, "sessions": sessions}));
+    // ws: one session per size mode under write-side back pressure
+    let burst: usize = a.get("burst").and_then(|s| s.parse().ok()).unwrap_or(0);
+    let mut stalls = 0u64;
+    if transport == "ws" && burst > 0 {
+        for (k, pool) in pools.iter().enumerate() {
+            let r = net::run_ws_burst(pool.clone(), &pool.mode.clone(), seed.wrapping_mul(77).wrapping_add(k as u64), burst);
+            for e in r.events {
+                if e["ev"] == "Skipped" {
+                    stalls += e["stalls"].as_u64().unwrap_or(0);
+                }
+                total += 1;
+                let _ = writeln!(w, "{}", e);
+            }
+        }
+    }
+    println!("{}", json!({"events": total, "sessions": sessions, "burst_stalls": stalls}));
     0
 }
 
